@@ -48,6 +48,76 @@ Definition parse_int (l : list Z) : option Z :=
   | _ => parse_digits 10 l 0
   end.
 
+(* fixed-width hexadecimal (lower case) and binary digit strings, most significant first *)
+Definition hexit (d : Z) : Z := if Z.ltb d 10 then 48 + d else 87 + d.
+Fixpoint hex_fixed (k : nat) (a : Z) : list Z :=
+  match k with O => [] | S k' => hex_fixed k' (a / 16) ++ [hexit (a mod 16)] end.
+Definition hexitU (d : Z) : Z := if Z.ltb d 10 then 48 + d else 55 + d.   (* upper case: integer to_hex *)
+Fixpoint hex_fixedU (k : nat) (a : Z) : list Z :=
+  match k with O => [] | S k' => hex_fixedU k' (a / 16) ++ [hexitU (a mod 16)] end.
+(* integer to_hex: "0x" and 1 + (nbits-1)/4 upper-case hexits of the two's complement pattern *)
+Definition int_hex_string (n a : Z) : list Z := 48 :: 120 :: hex_fixedU (Z.to_nat (1 + (n - 1) / 4)) a.
+Fixpoint bin_fixed (k : nat) (a : Z) : list Z :=
+  match k with O => [] | S k' => bin_fixed k' (a / 2) ++ [48 + a mod 2] end.
+(* posit hex_format: nbits '.' es 'x' to_hex(bits) 'p', where to_hex carries its own "0x" prefix and prints one hexit when nbits < 4 *)
+Definition posit_hex_string (n es a : Z) : list Z :=
+  dec_of_nat n ++ [46] ++ dec_of_nat es ++ [120; 48; 120] ++
+  hex_fixed (Z.to_nat (if Z.ltb n 4 then 1 else (n + 3) / 4)) a ++ [112].
+(* cfloat to_binary: 0b sign '.' exponent '.' fraction *)
+Definition cf_bin_string (n es a : Z) : list Z :=
+  let f := n - 1 - es in
+  [48; 98] ++ bin_fixed 1 (a / 2^(n-1)) ++ [46] ++ bin_fixed (Z.to_nat es) ((a / 2^f) mod 2^es) ++ [46] ++ bin_fixed (Z.to_nat f) (a mod 2^f).
+(* fixpnt to_binary: 0b integer bits '.' fraction bits; a lone 0 when there are no integer bits *)
+Definition fx_bin_string (n r a : Z) : list Z :=
+  [48; 98] ++ (if Z.ltb r n then bin_fixed (Z.to_nat (n - r)) (a / 2^r) else [48]) ++ [46] ++ bin_fixed (Z.to_nat r) (a mod 2^r).
+
+(* cfloat::assign(const std::string&), transcribed: a first pass keeps the 0/1/. characters after "0b" (dropping the
+   nibble marker, rejecting anything else) and counts them; a second pass fills the bits from the top and counts the
+   characters of the middle field.  Every rejection leaves the cleared encoding 0. *)
+Fixpoint cf_scan (l : list Z) (nb nd : Z) (acc : list Z) : option (Z * Z * list Z) :=
+  match l with
+  | [] => Some (nb, nd, rev acc)
+  | c :: r => if Z.eqb c 48 || Z.eqb c 49 then cf_scan r (nb + 1) nd (c :: acc)
+              else if Z.eqb c 46 then cf_scan r nb (nd + 1) (c :: acc)
+              else if Z.eqb c 39 then cf_scan r nb nd acc else None
+  end.
+Fixpoint cf_fill (es : Z) (l : list Z) (field nrexp bit v : Z) : option Z :=
+  match l with
+  | [] => if Z.eqb field 2 then Some v else None
+  | c :: r => if Z.eqb c 46
+              then (if Z.eqb (field + 1) 2 && negb (Z.eqb nrexp es) then None
+                    else cf_fill es r (field + 1) (if Z.eqb (field + 1) 1 then nrexp + 1 else nrexp) bit v)
+              else cf_fill es r field (if Z.eqb field 1 then nrexp + 1 else nrexp) (bit - 1) (v + (c - 48) * 2 ^ (bit - 1))
+  end.
+Definition cf_assign (n es : Z) (s : list Z) : Z :=
+  match s with
+  | 48 :: 98 :: r =>
+      match cf_scan r 0 0 [] with
+      | Some (nb, nd, bits) =>
+          if Z.eqb nb n && Z.eqb nd 2 then match cf_fill es bits 0 (-1) n 0 with Some v => v | None => 0 end else 0
+      | None => 0
+      end
+  | _ => 0
+  end.
+
+(* fixpnt::assign, binary branch, transcribed: the string is walked from its end; 0/1 set the next bit position (positions
+   beyond nbits are ignored by setbit), the nibble marker is skipped, the radix point must arrive at position rbits
+   (otherwise the value is cleared), and the walk stops at the 'b' of the prefix. *)
+Fixpoint fx_fill (r : Z) (l : list Z) (pos v : Z) : Z :=
+  match l with
+  | [] => v
+  | c :: t => if Z.eqb c 98 then v
+              else if Z.eqb c 39 then fx_fill r t pos v
+              else if Z.eqb c 46 then (if Z.eqb pos r then fx_fill r t pos v else 0)
+              else if Z.eqb c 48 then fx_fill r t (pos + 1) v
+              else fx_fill r t (pos + 1) (v + 2 ^ pos)
+  end.
+Definition fx_assign (n r : Z) (s : list Z) : Z :=
+  match s with
+  | 48 :: 98 :: _ :: _ => (fx_fill r (rev s) 0 0) mod 2 ^ n
+  | _ => 0     (* shorter than 3 characters: cleared; the decimal branch is "TBD" in the library and is not modelled *)
+  end.
+
 Definition judge_text (fam : Z) (cfg : list Z) (op : Z) (args res : list Z) : verdict :=
   let n := nth0 cfg 0 in
   let a := nth0 args 0 in
@@ -56,6 +126,18 @@ Definition judge_text (fam : Z) (cfg : list Z) (op : Z) (args res : list Z) : ve
   if Z.eqb op OP_decfmt || Z.eqb op OP_streamfmt then       (* streamfmt: the same expansion through operator<< *)
     (if Z.eqb fam 4 then exact (dec_of_Z (sgn n a)) else
      if Z.eqb fam 3 then exact (fx_dec_string n (nth0 cfg 1) a) else mkV false [] false) else
+  if Z.eqb op OP_hexstr then (if Z.eqb fam 1 then exact (posit_hex_string n (nth0 cfg 1) a) else
+                              if Z.eqb fam 4 then exact (int_hex_string n a) else mkV false [] false) else
+  if Z.eqb op OP_binstr then
+    (if Z.eqb fam 2 then exact (cf_bin_string n (nth0 cfg 1) a) else
+     if Z.eqb fam 3 then exact (fx_bin_string n (nth0 cfg 1) a) else mkV false [] false) else
+  if Z.eqb op OP_strassign then          (* args = the bytes of the string handed to assign() *)
+    (if Z.eqb fam 2 then exact [cf_assign n (nth0 cfg 1) args] else
+     if Z.eqb fam 3 then
+       match args with
+       | 48 :: 98 :: _ => exact [fx_assign n (nth0 cfg 1) args]
+       | _ => mkV true res false       (* not a 0b string: the library's decimal branch is marked TBD; outside the property *)
+       end else mkV false [] false) else
   if Z.eqb op OP_decparse then
     match parse_int args with
     | Some v => exact [wrap n v]
